@@ -19,25 +19,24 @@ variable (lower : String → String) (possible : String → List String) (ettl :
 variable (orc : Route.Oracle) (sz : QueryGen.QOut → Nat)
 variable {υ ω : Type} (U : UserL υ ω) (upd : Ms → List (Rec × Option Rec) → Nat → Bool) (Iυ : υ → Prop)
 
-/-- **Survival, every history, every block kind, per-question routing** (`_partial`: `UserOK`, `ApiSafe` of the API arguments, `Mono`,
-`TextGlue`) — `C15_history_closed_partial` over the downstream that routes each strategy with its own question's QU bit. -/
-theorem C15_history_closedQ_partial (glue : TextGlue) (hU : UserOK U Iυ) (bs : List (HBlock υ)) (c : Ms) (s : State (CS υ))
+/-- **Survival, every history, every block kind, per-question routing** (`_partial`: `UserOK`, `ApiSafe` of the API arguments, `Mono`) — `C15_history_closed_partial` over the downstream that routes each strategy with its own question's QU bit. -/
+theorem C15_history_closedQ_partial (hU : UserOK U Iυ) (bs : List (HBlock υ)) (c : Ms) (s : State (CS υ))
     (hI : HInv lower ettl Iυ c s) (hm : Mono c bs) (hs : ∀ b ∈ bs, HSafe lower ettl Iυ b) :
     (∃ s' out, hrunD lower possible sz U upd (downQ lower possible ettl orc U upd) s bs = .ok (s', out) ∧
         HInv lower ettl Iυ (lastTime c bs) s') ∨
     (∃ pre addr post s1 o1, bs = pre ++ HBlock.tcFire addr :: post ∧
       hrunD lower possible sz U upd (downQ lower possible ettl orc U upd) s pre = .ok (s1, o1) ∧ alGet addr s1.timers = none) :=
-  hrun_ok lower possible ettl sz U upd Iυ glue hU (downQ_closed lower possible ettl orc U upd Iυ glue hU) bs c s hI hm hs
+  hrun_ok lower possible ettl sz U upd Iυ textGlue hU (downQ_closed lower possible ettl orc U upd Iυ textGlue hU) bs c s hI hm hs
 
 /-- **A well-formed query sent after any closed history is answered, and the asked record reaches the set the routing rule names**
-(`_partial`: `UserOK`, `ApiSafe`, `Mono`, `TextGlue`).  After ANY history of blocks of every kind from a state satisfying the
+(`_partial`: `UserOK`, `ApiSafe`, `Mono`).  After ANY history of blocks of every kind from a state satisfying the
 invariant: a valid untruncated query that the duplicate guard does not drop, one of whose questions `q` asks for a record `r` of a
 registered service (not suppressed by its known answers), makes `datagram_received` return with tag `responded`; the unicast and
 immediate-multicast sets are sent inside the block (`Sent`); a record identical to `r` (C20) is in one of the four routed sets —
 for a legacy source port in the unicast reply and in a multicast set; for a QU question from port 5353 in the unicast reply if the
 cache saw it within a quarter of its TTL, in the immediate multicast otherwise.  (Same conclusion as
 `C15_query_reaches_responder_routed_partial`; the hypothesis `hO` about residual blocks is gone.) -/
-theorem C15_query_reaches_responder_closed_partial (glue : TextGlue) (hU : UserOK U Iυ) (bs : List (HBlock υ)) (c : Ms)
+theorem C15_query_reaches_responder_closed_partial (hU : UserOK U Iυ) (bs : List (HBlock υ)) (c : Ms)
     (s0 s1 : State (CS υ)) (o1 : List (Out (COut ω)))
     (hI : HInv lower ettl Iυ c s0) (hm : Mono c bs) (hs : ∀ b ∈ bs, HSafe lower ettl Iυ b)
     (hrun' : hrunD lower possible sz U upd (downQ lower possible ettl orc U upd) s0 bs = .ok (s1, o1))
@@ -65,8 +64,8 @@ theorem C15_query_reaches_responder_closed_partial (glue : TextGlue) (hU : UserO
           (dictRecords (answerMap lower ettl s1.down.reg (ks.map msgOf)) ++ RouteQ.stratRecords items)
         (Reply.withinQuarter ((Route.seenOf lower s1.down.cache tbl).get (Route.idOf lower tbl r)) now = true → r'' ∈ keysOf sel.ucast) ∧
         (Reply.withinQuarter ((Route.seenOf lower s1.down.cache tbl).get (Route.idOf lower tbl r)) now = false → r'' ∈ keysOf sel.mcastNow)) := by
-  have hDC := downQ_closed lower possible ettl orc U upd Iυ glue hU
-  have hH1 := hrun_inv lower possible ettl sz U upd Iυ glue hU hDC bs c s0 s1 o1 hI hm hs hrun'
+  have hDC := downQ_closed lower possible ettl orc U upd Iυ textGlue hU
+  have hH1 := hrun_inv lower possible ettl sz U upd Iυ textGlue hU hDC bs c s0 s1 o1 hI hm hs hrun'
   have hI1 := hH1.full.1.1
   have hL1 := hH1.linv
   have hD := RouteQ.downQ_downOK lower possible ettl orc (userBase U upd) (UInv Iυ) (userBase_ok U upd Iυ hU)
@@ -112,7 +111,7 @@ theorem C15_query_reaches_responder_closed_partial (glue : TextGlue) (hU : UserO
     exact hqu hu hquq _ hlast
 
 /-- **An announcement sent after any closed history still reaches its browsers**, over the same model -/
-theorem C15_announcement_reaches_browser_closedQ_partial (glue : TextGlue) (hU : UserOK U Iυ) (bs : List (HBlock υ)) (c : Ms)
+theorem C15_announcement_reaches_browser_closedQ_partial (hU : UserOK U Iυ) (bs : List (HBlock υ)) (c : Ms)
     (s0 s1 : State (CS υ)) (o1 : List (Out (COut ω)))
     (hI : HInv lower ettl Iυ c s0) (hm : Mono c bs) (hs : ∀ b ∈ bs, HSafe lower ettl Iυ b)
     (hrun' : hrunD lower possible sz U upd (downQ lower possible ettl orc U upd) s0 bs = .ok (s1, o1))
@@ -126,7 +125,7 @@ theorem C15_announcement_reaches_browser_closedQ_partial (glue : TextGlue) (hU :
     {b : Browser} (hb : b ∈ s1.down.browsers) (ht : t ∈ b.types) (hposs : (possible w.name).contains t = true) :
     ∃ s' out i, recv (downQ lower possible ettl orc U upd) s1 data addr port now draw = .ok (s', out, .response) ∧
       Out.down (COut.callback i ⟨.added, t, alias⟩) ∈ out := by
-  have hI1 := hrun_inv lower possible ettl sz U upd Iυ glue hU (downQ_closed lower possible ettl orc U upd Iυ glue hU) bs c s0 s1 o1 hI hm hs hrun'
+  have hI1 := hrun_inv lower possible ettl sz U upd Iυ textGlue hU (downQ_closed lower possible ettl orc U upd Iυ textGlue hU) bs c s0 s1 o1 hI hm hs hrun'
   obtain ⟨p', hp', hk⟩ := parse_pkt data now hsize
   rw [hp] at hp'
   cases hp'
